@@ -56,6 +56,10 @@ IterOK(s) == /\ E.outs = AbsTaken(s, E.k)
              /\ E.count = AbsRemaining(s, E.k)
              /\ E.last = AbsLast(s, E.k)
              /\ E.nxt = AbsTaken(s, E.k + 1)[E.k + 1]
+             /\ E.nth1 = AbsNth(s, E.k, 1)
+             /\ E.rest = AbsRest(s, E.k)          \* drained through fold (for_each)
+             /\ E.rest2 = AbsRest(s, E.k)         \* drained through try_fold (all)
+             /\ E.rest3 = AbsRest(s, E.k)         \* collected
 TIter == Is("iter") /\ IterOK(AbsIter(H)) /\ Keep /\ Step
 TRev  == Is("rev")  /\ IterOK(AbsRev(H))  /\ Keep /\ Step
 
